@@ -19,8 +19,8 @@ def main():
     except (OSError, ValueError):
         dg = None
     if dg != fsm.tour_digest():
-        print("note: spec/tour/MCRtrSocketCover.json.gz was made from other spec files (digest %s, now %s): the protocol checks "
-              "will regenerate the transition tour (about 5 minutes, cached under build/cache); run tools/gen_tour.py and commit" % (dg, fsm.tour_digest()))
+        print("note: spec/tour/MCRtrSocketCover.json.gz was made from earlier spec files (digest %s, now %s): still usable (the tour "
+              "only supplies inputs), but run tools/gen_tour.py and commit to cover transitions added since" % (dg, fsm.tour_digest()))
     print("selftest ok")
 
 
